@@ -30,6 +30,7 @@ func newBrokerPublishQOS2Transaction(ctx context.Context, h *handler1, msgID uin
 			tLog.Debug("Deleted.")
 		},
 	)
+	t.SetSuspended(t.clientAsleep)
 	return t
 }
 
